@@ -45,6 +45,7 @@ type part struct {
 	Tags    string   // extra build tags
 	Env     []string // extra env
 	OnlyT   bool     // part runs in the thorough tier only
+	ModRepl map[string]string // module-cache file (relative to GOMODCACHE) -> file under /verif to put in its place through the overlay
 }
 
 type check struct {
@@ -466,6 +467,19 @@ func makeOverlay(work string, idx int, p part) (string, error) {
 		})
 		if err != nil {
 			return "", fmt.Errorf("harness set %s: %w", set, err)
+		}
+	}
+	if len(p.ModRepl) > 0 {
+		out, err := exec.Command("go", "env", "GOMODCACHE").Output()
+		if err != nil {
+			return "", err
+		}
+		mc := strings.TrimSpace(string(out))
+		for rel, f := range p.ModRepl {
+			if _, err := os.Stat(filepath.Join(mc, rel)); err != nil {
+				return "", fmt.Errorf("module cache file %s: %w", rel, err)
+			}
+			replace[filepath.Join(mc, rel)] = filepath.Join(verif, f)
 		}
 	}
 	if len(p.Weave) > 0 {
